@@ -1092,7 +1092,12 @@ func resetOf(x *side, evs []vt.Ev, mode string) vt.Ev {
 	}
 	reqs := append([]string{}, x.reqs...)
 	auto := append([]string{}, x.autoclose...)
-	return vt.Ev{"role": x.role, "progs": pl, "reqs": reqs, "autoclose": auto, "mode": mode, "initbits": []string{"Secure"}}
+	local0, remote0 := "none", "none"
+	if x.role == "init" {
+		local0, remote0 = user+"@"+domain, domain
+	}
+	return vt.Ev{"role": x.role, "progs": pl, "reqs": reqs, "autoclose": auto, "mode": mode, "initbits": []string{"Secure"},
+		"local0": local0, "remote0": remote0}
 }
 
 func main() {
